@@ -69,8 +69,12 @@ class Collector:
     def __init__(self, d, sink_port):
         self.d = d
         self.ports = {k: free_port(tcp=(k == "stats")) for k in ("ipfix", "nf9", "nf5", "sflow", "stats")}
-        open(os.path.join(d, "vflow.conf"), "w").write("")
-        open(os.path.join(d, "mq.conf"), "w").write("url: 127.0.0.1:%d\nprotocol: tcp\nretry-max: 2\n" % sink_port)
+        # the configuration directory is NOT the working directory, and the cache files are named relatively (they are the working
+        # directory's, for the load at start-up and for the dump at shutdown alike)
+        self.conf = os.path.join(d, "conf")
+        os.makedirs(self.conf, exist_ok=True)
+        open(os.path.join(self.conf, "vflow.conf"), "w").write("")
+        open(os.path.join(self.conf, "mq.conf"), "w").write("url: 127.0.0.1:%d\nprotocol: tcp\nretry-max: 2\n" % sink_port)
         self.p = None
 
     def start(self, retries=2):
@@ -88,11 +92,11 @@ class Collector:
         return False
 
     def start1(self):
-        args = [os.path.join(vf.HARNESS, "bin", "vflow"), "-config", os.path.join(self.d, "vflow.conf"), "-mqueue", "rawSocket", "-mqueue-conf", "mq.conf",
+        args = [os.path.join(vf.HARNESS, "bin", "vflow"), "-config", os.path.join(self.conf, "vflow.conf"), "-mqueue", "rawSocket", "-mqueue-conf", "mq.conf",
                 "-ipfix-port", str(self.ports["ipfix"]), "-netflow9-port", str(self.ports["nf9"]), "-netflow5-port", str(self.ports["nf5"]),
                 "-sflow-port", str(self.ports["sflow"]), "-stats-http-port", str(self.ports["stats"]), "-stats-format", "restful",
                 "-ipfix-rpc-enabled=false", "-dynamic-workers=false", "-pid-file", os.path.join(self.d, "pid"),
-                "-ipfix-tpl-cache-file", os.path.join(self.d, "ipfix.cache"), "-netflow9-tpl-cache-file", os.path.join(self.d, "nf9.cache"),
+                "-ipfix-tpl-cache-file", "ipfix.cache", "-netflow9-tpl-cache-file", "nf9.cache",
                 "-ipfix-workers", "4", "-netflow9-workers", "4", "-netflow5-workers", "2", "-sflow-workers", "2"]
         self.err = open(os.path.join(self.d, "stderr.%d" % int(time.time() * 1000)), "w+")
         self.p = subprocess.Popen(args, stdout=self.err, stderr=self.err, cwd=self.d)
@@ -106,6 +110,15 @@ class Collector:
                     return False
                 time.sleep(0.05)
         return False
+
+    def cache_path(self, name):
+        """where the collector keeps the cache file of that (relative) name: the working directory, as the option is documented;
+        a tree that resolves relative names against the configuration directory is accepted as well - what the property promises
+        is shown by the restart, not by the place"""
+        for base in (self.d, self.conf):
+            if os.path.exists(os.path.join(base, name)):
+                return os.path.join(base, name)
+        return os.path.join(self.d, name)
 
     def stats(self):
         try:
@@ -320,7 +333,7 @@ class P:
                         viol.append({"cases": [], "verdict": "collector panicked while stopping (%s traffic, %s)" % (mode, sig.name), "stderr_tail": err[-1200:]}); break
                     for f in ("ipfix.cache", "nf9.cache"):
                         try:
-                            dj = json.load(open(os.path.join(d, f)))
+                            dj = json.load(open(col.cache_path(f)))
                             assert dj["ShardNo"] == 32 and len(dj["Cache"]) == 32
                         except Exception as e:
                             viol.append({"cases": [], "verdict": "cache file %s left by the collector is not complete / loadable: %s" % (f, e)}); break
@@ -359,7 +372,7 @@ class P:
                             acked[("ipfix", "127.0.0.9", 301)] = (dmsg, pub)
                         time.sleep(0.5)
                         rc, lat, err = col.stop(signal.SIGTERM)
-                        size = os.path.getsize(os.path.join(d, "ipfix.cache")) if os.path.exists(os.path.join(d, "ipfix.cache")) else -1
+                        size = os.path.getsize(col.cache_path("ipfix.cache")) if os.path.exists(col.cache_path("ipfix.cache")) else -1
                         log.append({"cycle": "large-cache", "mode": "bulk %d template datagrams" % sent, "signal": "SIGTERM", "exit": rc, "latency_s": round(lat, 2),
                                     "acked_templates": len(acked), "cache_file_octets": size})
                         if rc != 0 or "panic" in err or "fatal error" in err:
@@ -368,7 +381,7 @@ class P:
                             viol.append({"cases": [], "verdict": "collector took %.1f s to exit on SIGTERM with a large template cache" % lat})
                         else:
                             try:
-                                dj = json.load(open(os.path.join(d, "ipfix.cache")))
+                                dj = json.load(open(col.cache_path("ipfix.cache")))
                                 assert dj["ShardNo"] == 32 and len(dj["Cache"]) == 32
                                 ntpl = sum(len(sh["Templates"]) for sh in dj["Cache"])
                                 log[-1]["templates_in_file"] = ntpl
